@@ -60,7 +60,7 @@ def describe(c):
 
 # ------------------------------------------------------------------ abstract alphabet (C06)
 
-ALPHABET = ["fullA", "fullB", "fullBseries", "fullAdup", "fullArecap", "fullPlaceholder", "fullC_sameRV", "law", "law2", "journal",
+ALPHABET = ["fullA", "fullB", "fullBseries", "fullPlaceholder1", "fullAdup", "fullArecap", "fullPlaceholder", "fullC_sameRV", "law", "law2", "journal",
             "shortA", "shortAmbig", "shortForeign", "shortAnte",
             "supraA", "supraUnknown", "supraAmbig", "supraRecap", "refA", "refNone",
             "idValid", "idInvalid", "idNoPin", "idNonNumeric", "unknown"]
@@ -90,6 +90,9 @@ def make(sym):
     if sym == "fullC_sameRV":
         # same reporter and volume as A, different page; shares the party name Smith with A
         return F.case_citation(volume="1", reporter="U.S.", page="300", metadata={"plaintiff": "Gamma", "defendant": "Smithson"})
+    if sym == "fullPlaceholder1":
+        # a placeholder page written with a single underscore
+        return F.case_citation(volume="1", reporter="U.S.", page="_", metadata={"plaintiff": "Eta", "defendant": "Roe"})
     if sym == "fullPlaceholder":
         return F.case_citation(volume="1", reporter="U.S.", page="___", metadata={"plaintiff": "Delta", "defendant": "Doe"})
     if sym == "law":
@@ -180,7 +183,9 @@ def full_key(c):
     from eyecite.models import FullCaseCitation
 
     if isinstance(c, FullCaseCitation):
-        if c.groups.get("page") is None:
+        pg = c.groups.get("page")
+        # placeholder page, read off what was WRITTEN (any run of underscores), not off the normalised group
+        if pg is None or (isinstance(pg, str) and pg != "" and set(pg) <= {"_"}):
             return None
         # normalised reporter = name of the guessed EDITION (F.2d and F.3d are different documents), read from the
         # edition object rather than through corrected_reporter()
